@@ -391,6 +391,20 @@ def run(ctx):
                                 {'op': 'decode+observe', 'item': b2, 'slot': slot_, 'seq': ['values', 'nested']},
                                 {'op': 'encode', 'item': a, 'slot': slot_, 'eslot': slot_},
                                 {'op': 'encode', 'item': b2, 'slot': slot_, 'eslot': slot_}]
+        # the same list (plain and with a marker operator) under two master table versions that define its element
+        # differently, through ONE coder in both orders, decoding and encoding: in every history
+        for nm in ('xver-m14001', 'xver-m22039', rng.choice(['xver-14001', 'xver-1103', 'xver-15009', 'xver-22039'])):
+            a, b2 = 'r:%s-v13' % nm, 'r:%s-v%d' % (nm, rng.choice([33, 19]))
+            if a in ids and b2 in ids:
+                if rng.random() < 0.5:
+                    a, b2 = b2, a
+                slot_ = rng.randrange(len(CACHE_MAXES))
+                pos = rng.randrange(len(ops) + 1)
+                ops[pos:pos] = [{'op': 'decode', 'item': a, 'slot': slot_},
+                                {'op': 'decode+observe', 'item': b2, 'slot': slot_, 'seq': ['values', 'nested']},
+                                {'op': 'decode+observe', 'item': a, 'slot': slot_, 'seq': ['values']},
+                                {'op': 'encode', 'item': a, 'slot': slot_, 'eslot': slot_},
+                                {'op': 'encode', 'item': b2, 'slot': slot_, 'eslot': slot_}]
         for nm in ('xunb-8201', 'xunb-1211'):
             a, b2 = 'r:%s-l%d' % (nm, rng.choice([4, 7])), 'r:%s-l%d' % (nm, rng.choice([1, 101]))
             if a in ids and b2 in ids:
